@@ -62,6 +62,7 @@ def run(idx, rep, tier):
     c06.header_index_sequences(idx, rep, "R8")
     c06.header_value_sequence(idx, rep, "R8")
     c06.reset_table(idx, rep, "R8")
+    c06.reset_clears(idx, rep, "R8")
     # a handled error ends the run only when the policy (or the csvpath's validation-mode) says stop: every later matching line is lost otherwise
     c05.r2(idx, K.as_rule(rep, "R7", keep=lambda k: "do_i_" in k))
     rep.stats["exhaustive"] = True
